@@ -22,6 +22,7 @@ RULE = (
     " offered_counts: every integer count 1..40 per shape; counts Gauss() refuses are trivial, accepted ones are held to the docstring's order."
     ' Round 8: mixed_orientation enumerates every 2D / 3D element type on a mesh merged with its mirror image (measure and polynomial integrals vs the exact integrals of the two halves).'
     ' Round 9: far_from_origin enumerates every 2D / 3D element type translated to map coordinates (4.5e5, 5.4e6), measures vs those at the origin within the rounding of the coordinates.'
+    ' rank_types (round 9) enumerates every element type, segments included, on fixed meshes (few elements, unstructured, a row).'
 )
 ASSUMPTIONS = [
     "documented degree taken from the docstrings of Gauss._Triangle/_Quadrangle/_Tetrahedron/"
@@ -529,3 +530,47 @@ def check_far_from_origin(case, rec):
 
 SUBS.append(Sub("far_from_origin", check_far_from_origin, enum=enum_far_from_origin,
                 doc="every 2D / 3D element type (organised and unstructured in 2D) translated to map coordinates (4.5e5, 5.4e6)"))
+
+
+# ------------------------------------------------------------------------------------------
+# (added by the lead, round 9) the rank of the stiffness rule for EVERY element type, on fixed meshes (a few elements, organised and
+# unstructured, a row of elements): the generated `rank` cases reach a given type on a mesh that keeps its mechanisms only at some
+# seeds (seeded change C07_B, re-run at the end of round 9)
+
+
+def enum_rank_types(tier):
+    sq = [[0.0, 0.0], [1.2, 0.1], [1.0, 0.9], [0.1, 1.0]]
+    strip = [[0.0, 0.0], [3.0, 0.0], [3.0, 1.0], [0.0, 1.0]]
+    for et in gm.T2D + gm.T3D:
+        d3 = et in gm.T3D
+        quadlike = orc.shape_of(et) in ("QUAD", "HEXA")
+        for verts, h, organised in ((sq, 0.6, quadlike), (sq, 0.35, False), (strip, 1.0, True)):
+            if organised and not quadlike and verts is sq:
+                continue
+            yield dict(recipe=dict(verts=verts, h=h if not d3 else max(h, 0.7), elemType=et, organised=organised,
+                                   extrude=[0.1, 0.0, 0.8] if d3 else None, layers=1 if d3 else 0, A=None, b=None, perm=None, orphans=0))
+    for et in ("SEG2", "SEG3", "SEG4", "SEG5"):
+        yield dict(recipe=dict(kind="1d", elemType=et))
+
+
+def check_rank_types(case, rec):
+    if case["recipe"].get("kind") == "1d":
+        from EasyFEA import ElemType, Mesher
+        from EasyFEA.Geoms import Line, Point
+
+        et = case["recipe"]["elemType"]
+        mesh = Mesher().Mesh_1D([Line(Point(0, 0), Point(2.0, 1.0), 0.75)], ElemType(et))
+        simu = Simulations.Thermal(mesh, Models.Thermal(k=1.3, c=1.0, thickness=1.0))
+        K = orc.dense(simu.Get_K_C_M_F()[0])
+        w = orc.spectrum(K)
+        k, clear = orc.nullity_gap(w)
+        rec.label("rank:" + et)
+        rec.require(clear and k == 1, "K_nullity", f"{et}: 1D conduction K has {k} zero-energy modes on a {mesh.Ne}-element bar (expected 1)",
+                    elemType=et, types=et)
+        rec.nontrivial(True)
+        return
+    check_rank(case, rec)
+
+
+SUBS.append(Sub("rank_types", check_rank_types, enum=enum_rank_types,
+                doc="every element type (segments included) x fixed meshes (few elements, unstructured, a row): conduction K has exactly one zero mode"))
